@@ -104,6 +104,7 @@ def cases(tier, seed):
                 continue        # homogeneous spheres only
             out.append({"id": "lin:%s:%s" % (th, sc), "kind": "lin",
                         "th": th, "sc": sc})
+    out.append({"id": "lin:typed-polarization", "kind": "lintyped"})
     # a close pair of spheres (interacting: the default theory is
     # Multisphere) with channel-dependent index or radius
     for what in ("n-dict", "n-xarray", "r-dict", "n-dict+r-dict"):
@@ -119,12 +120,30 @@ def cases(tier, seed):
         skip = False
         for par in ("wl", "pol", "n", "r", "alpha"):
             o = v["ord_" + par]
-            if o and (v[par] != "dict" or
+            if o and (v[par] not in ("dict", "xarray") or
                       o >= math.factorial(v["nch"])):
                 skip = True
         if skip:
             continue
         out.append({"id": "ch:" + vec_id(vec), "kind": "ch", "vec": vec})
+    # every combination of the forms of wavelength, polarization and index,
+    # each labelled form in the detector's channel order and in another one
+    # (a mistake that needs two forms at once is beyond the deviation bound)
+    last = {2: 1, 3: 4}
+    for nch in ((2,) if tier == "quick" else (2, 3)):
+        forms = lambda kinds: [(k, o) for k in kinds for o in
+                               ((0, last[nch]) if k in ("dict", "xarray")
+                                else (0,))]
+        for (wk, wo), (pk, po), (nk, no) in itertools.product(
+                forms(["dict", "xarray", "list"]),
+                forms(["vector", "dict", "xarray"]),
+                forms(["scalar", "dict", "xarray"])):
+            v = {"nch": nch, "wl": wk, "pol": pk, "n": nk, "r": "scalar",
+                 "alpha": "scalar", "noise": "none", "det": "grid",
+                 "shape": [3, 4], "ord_wl": wo, "ord_pol": po, "ord_n": no,
+                 "ord_r": 0, "ord_alpha": 0}
+            out.append({"id": "chmix:nch=%d:wl=%s%d:pol=%s%d:n=%s%d" %
+                        (nch, wk, wo, pk, po, nk, no), "kind": "ch", "v": v})
     return out
 
 
@@ -234,6 +253,51 @@ def _run_lin(case, ck):
     return digest(*fps)
 
 
+def _run_lintyped(case, ck):
+    """polarization linearity when the vector is a typed array (the squares
+    of its components need not fit its own type, and its own precision is
+    not the precision of the result)"""
+    import xarray as xr
+    scat = H.mk_scatterer(H.ST["mie"][0])
+    det = _dets()["points"]
+    th = lambda: H.mk_theory(LIN_TH["Mie"])
+    Fx = _field(det, scat, th(), (1, 0)).values
+    Fy = _field(det, scat, th(), (0, 1)).values
+    scale = max(np.abs(Fx).max(), np.abs(Fy).max())
+    forms = []
+    for dt, vals in (("float16", [3, 4, 0]), ("float16", [300, 400, 0]),
+                     ("float16", [0.6, 0.8, 0]), ("float32", [0.6, 0.8, 0]),
+                     ("float32", [0.6, -0.8]), ("float16", [3, 4]),
+                     ("int8", [100, 100, 0]), ("uint8", [200, 100, 0]),
+                     ("int16", [300, -400]), ("int64", [3, 4, 0])):
+        arr = np.array(vals, dtype=dt)
+        forms.append(("np.array(%r, %s)" % (vals, dt), arr))
+        if len(vals) == 3:
+            forms.append(("labelled " + forms[-1][0], xr.DataArray(
+                arr.copy(), dims="vector", coords={"vector": ["x", "y", "z"]})))
+    fps = []
+    for name, pv in forms:
+        a, b = float(np.asarray(pv)[0]), float(np.asarray(pv)[1])
+        before = np.asarray(pv).copy()
+        try:
+            F = _field(det, scat, th(), pv).values
+        except Exception as e:
+            ck.true("linearity-typed", False, "polarization %s raised %s: %s"
+                    % (name, type(e).__name__, e))
+            continue
+        ck.trans += 1
+        ref = (a * Fx + b * Fy) / math.hypot(a, b)
+        e = float(np.abs(F - ref).max() / scale)
+        ck.metric("linearity-typed", e)
+        ck.true("linearity-typed", e <= 1e-12, "Mie: field for polarization "
+                "%s differs from (a*F_x + b*F_y)/|(a,b)| by %.2e" % (name, e))
+        ck.true("input-unchanged", np.array_equal(np.asarray(pv), before) and
+                np.asarray(pv).dtype == before.dtype,
+                "polarization %s was modified by the call" % name)
+        fps.append(fp_values(F))
+    return digest(*fps)
+
+
 def _perm(labels, k):
     return list(list(itertools.permutations(labels))[k])
 
@@ -270,13 +334,15 @@ def _mk_param(kind, table, labels, order, vec=False):
                                       name="illumination"))
         return full.sel(vector=["y", "x", "z"])
     if kind == "xarray":
+        # (a labelled array may list the channels in any order)
+        labs = _perm(labels, order)
         if vec:
-            return xr.concat([to_vector(table[lab]) for lab in labels],
-                             xr.DataArray(labels, dims="illumination",
+            return xr.concat([to_vector(table[lab]) for lab in labs],
+                             xr.DataArray(labs, dims="illumination",
                                           name="illumination"))
-        return xr.DataArray([table[lab] for lab in labels],
+        return xr.DataArray([table[lab] for lab in labs],
                             dims="illumination",
-                            coords={"illumination": labels})
+                            coords={"illumination": labs})
     raise ValueError(kind)
 
 
@@ -284,7 +350,7 @@ def _run_ch(case, ck):
     import xarray as xr
     from holopy.core.metadata import update_metadata
     from holopy.scattering import Sphere, Mie, calc_holo, calc_field
-    v = pick(CH_AXES, case["vec"])
+    v = case.get("v") or pick(CH_AXES, case["vec"])
     labels = LABELS[v["nch"]]
     wl = _mk_param(v["wl"], WLS, labels, v["ord_wl"])
     pol = _mk_param(v["pol"], PCH, labels, v["ord_pol"], vec=True)
@@ -413,7 +479,7 @@ def _run_chcluster(case, ck):
 
 def run_case(case):
     ck = Checker()
-    fp = {"sup": _run_sup, "tree": _run_tree, "lin": _run_lin,
+    fp = {"sup": _run_sup, "tree": _run_tree, "lin": _run_lin, "lintyped": _run_lintyped,
           "ch": _run_ch, "chcluster": _run_chcluster}[case["kind"]](case, ck)
     if fp == "unsupported":
         return ck.result(fp=fp, outcome="refused", nontrivial=False)
